@@ -116,7 +116,15 @@ pub type Fields = HashMap<String, String>;
 fn run_case(op: &str, f: &Fields) -> String {
     match f.get("threads").and_then(|t| t.parse::<usize>().ok()) {
         Some(n) => {
-            let pool = rayon::ThreadPoolBuilder::new().num_threads(n).build().expect("thread pool");
+            // one pool per size for the whole run: worker threads outlive an encoder, as they do in a program that encodes several
+            // files, so state a worker keeps between tasks (thread-locals) is carried from one case into the next
+            static POOLS: std::sync::OnceLock<std::sync::Mutex<HashMap<usize, std::sync::Arc<rayon::ThreadPool>>>> = std::sync::OnceLock::new();
+            let pool = {
+                let mut m = POOLS.get_or_init(|| std::sync::Mutex::new(HashMap::new())).lock().unwrap();
+                m.entry(n)
+                    .or_insert_with(|| std::sync::Arc::new(rayon::ThreadPoolBuilder::new().num_threads(n).build().expect("thread pool")))
+                    .clone()
+            };
             let r = pool.install(|| ops::dispatch(op, f));
             format!("{} parallel=1", r)
         }
